@@ -9,17 +9,7 @@
 From Coq Require Import Sorting.Sorted Sorting.Permutation.
 From MowCli Require Import Base Lexer Matchers Values Cmd DeclProofs.
 
-(** * Go's order on strings: bytewise, a proper prefix first *)
-Fixpoint str_ltb (a b : str) : bool :=
-  match a, b with
-  | _, [] => false
-  | [], _ :: _ => true
-  | x :: a', y :: b' =>
-    if Nat.ltb (nat_of_ascii x) (nat_of_ascii y) then true
-    else if Nat.ltb (nat_of_ascii y) (nat_of_ascii x) then false
-    else str_ltb a' b'
-  end.
-
+(** * Go's order on strings: bytewise, a proper prefix first ([Base.str_ltb]) *)
 Lemma nat_of_ascii_inj x y : nat_of_ascii x = nat_of_ascii y -> x = y.
 Proof. intros H. rewrite <- (ascii_nat_embedding x), <- (ascii_nat_embedding y). now rewrite H. Qed.
 
